@@ -126,6 +126,7 @@ ob_b1.wants_all_cores = True
 def obligations(ctx: Ctx):
     P = PROPERTY
     return [
+        Ob(f"{P}.F4.frontmatter", "F", "frontmatter stripping cuts and glues on the same literal newline: the body passes through byte for byte", ["octave_mcp.core.parser:_strip_yaml_frontmatter"], LX.ob_frontmatter_split_join),
         Ob(f"{P}.F3.tokens", "F", "tokenize only appends to its token list (one documented in-place % merge): an emitted token is never replaced", LX.FUNCS_LEX, LX.ob_token_stream_frame),
         Ob(f"{P}.R1", "R", "literal spellings re-lex with their type (numbers, booleans, null)", LX.FUNCS_EMIT + LX.FUNCS_LEX, partial(LX.ob_literals, oid=f"{P}.R1")),
         Ob(f"{P}.T1", "R", "unescape(escape(v)) == v for every string", LX.FUNCS_EMIT + LX.FUNCS_LEX, partial(LX.ob_escape_inverse, oid=f"{P}.T1")),
